@@ -38,8 +38,13 @@ func (m *Mutex) TryLock() bool {
 
 func (m *Mutex) Unlock() {
 	verifrt.Yield("unlock", verifrt.CallerSite(1), m, nil)
-	if !m.held.Load() && verifrt.IsAborting() {
-		return // deferred unlock run while a parked thread is being unwound
+	if !m.held.Load() {
+		if verifrt.IsAborting() {
+			return // deferred unlock run while a parked thread is being unwound
+		}
+		// the real primitive would kill the process ("fatal error: sync: unlock of unlocked
+		// mutex"); a panic of this thread is recorded as a crash and keeps the worker alive
+		panic("fatal error: sync: unlock of unlocked mutex (" + verifrt.CallerSite(1) + ")")
 	}
 	m.held.Store(false)
 	m.mu.Unlock()
@@ -60,8 +65,11 @@ func (m *RWMutex) Lock() {
 
 func (m *RWMutex) Unlock() {
 	verifrt.Yield("unlock", verifrt.CallerSite(1), m, nil)
-	if !m.writer.Load() && verifrt.IsAborting() {
-		return
+	if !m.writer.Load() {
+		if verifrt.IsAborting() {
+			return
+		}
+		panic("fatal error: sync: Unlock of unlocked RWMutex (" + verifrt.CallerSite(1) + ")")
 	}
 	m.writer.Store(false)
 	m.mu.Unlock()
@@ -75,8 +83,11 @@ func (m *RWMutex) RLock() {
 
 func (m *RWMutex) RUnlock() {
 	verifrt.Yield("runlock", verifrt.CallerSite(1), m, nil)
-	if m.readers.Load() <= 0 && verifrt.IsAborting() {
-		return
+	if m.readers.Load() <= 0 {
+		if verifrt.IsAborting() {
+			return
+		}
+		panic("fatal error: sync: RUnlock of unlocked RWMutex (" + verifrt.CallerSite(1) + ")")
 	}
 	m.readers.Add(-1)
 	m.mu.RUnlock()
